@@ -1,6 +1,6 @@
 /-
   C10 — model of the pretty printer of src/cpp/pretty-format.c, with the fix patches
-  fixes/C10-01 … C10-13 applied:
+  fixes/C10-01 … C10-15 applied:
   `remove_trailing_zeroes`, `break_string`, `linebreak_check_after_write`,
   `rtosc_print_range`, `range_args_identical`, `range_step_overflows`,
   `rtosc_convert_to_range` (+ `insert_arg_range`), `rtosc_print_arg_val` (every type),
@@ -142,6 +142,14 @@ def rangeStepOverflows (lhs delta : Cell) : Bool :=
   | .huge a, .huge d => a + d < -9223372036854775808 || a + d > 9223372036854775807
   | _, _ => false
 
+/-- `range_width_overflows(first, last)` (fix C10-15) -/
+def rangeWidthOverflows (first last : Cell) : Bool :=
+  match first, last with
+  | .int .c a, .int _ b => b - a < -2147483648 || b - a > 2147483647
+  | .int .i a, .int _ b => b - a < -2147483648 || b - a > 2147483647
+  | .huge a, .huge b => b - a < -9223372036854775808 || b - a > 9223372036854775807
+  | _, _ => false
+
 /-- first loop of `rtosc_convert_to_range`: number of leading args of the type of the first -/
 def countCommon : Nat → UInt8 → List Cell → Nat → Nat → Nat → Res Nat
   | 0, _, _, _, _, _ => .error .fuel
@@ -165,6 +173,7 @@ def extendRun : Nat → List Cell → Nat → Option Cell → Nat → Nat → Re
         let added ← must (addAV cur d)
         if next ≥ size then pure (next, numCommon + 1)
         else if !(← eqSingle [added] (arg.drop next)) then pure (next, numCommon + 1)
+        else if rangeWidthOverflows (← deref arg) (← deref (arg.drop next)) then pure (next, numCommon + 1)
         else extendRun fuel arg size delta next (numCommon + 1)
     | none =>
       if next ≥ size then pure (next, numCommon + 1)
